@@ -11,6 +11,7 @@ import ScnrVerif.Model.Dot
 import ScnrVerif.Model.Minimize
 import ScnrVerif.Model.Compile
 import ScnrVerif.Model.Agree
+import ScnrVerif.Model.Registry
 import Std.Data.HashMap
 /-!
 # Line-protocol driver for the executable model (`lake exe scnr_model < case.in`)
@@ -69,6 +70,10 @@ structure DState where
   /-- track A: patterns for the compiler model, per mode `(tid, ast)`; lookaheads `(tid, ast)` -/
   cpats : Array (List (Nat × CAst)) := #[]
   clapats : Array (List (Nat × CAst)) := #[]
+  /-- class registry (E8): patterns whose leaves are keys, per mode, in pattern order (a lookahead is
+      attached to the pattern sent last); the keys of the real registry in id order -/
+  kpats : Array (List CPat) := #[]
+  regreal : List Nat := []
   /-- auxiliary automata (minimizer input / output) -/
   aux : Array Dfa := #[]
   iters : Array Iter := #[]
@@ -734,6 +739,33 @@ def step (st : DState) (line : String) : DState × Option String :=
         else
           (st, some ("\n".intercalate (runEquiv X Y reps [0] (normP pats) false "equiv")))
     | _, _ => (st, some "bad-op")
+  | "kpat" :: m :: t :: r =>
+    match m.toNat?, t.toNat?, parseCAst r with
+    | some m, some t, some (a, []) =>
+      ({ st with kpats := (ensure st.kpats m []).modify m fun l => l ++ [⟨t, a, none⟩] }, none)
+    | _, _, _ => (st, some "bad-op")
+  | "kla" :: m :: pos :: r =>
+    match m.toNat?, pos.toNat?, parseCAst r with
+    | some m, some pos, some (a, []) =>
+      ({ st with kpats := (ensure st.kpats m []).modify m fun l =>
+          match l.reverse with
+          | q :: rest => (({ q with la := some (pos != 0, a) } : CPat) :: rest).reverse
+          | [] => [] }, none)
+    | _, _, _ => (st, some "bad-op")
+  | "regreal" :: r => ({ st with regreal := r.filterMap String.toNat? }, none)
+  | ["registry"] =>
+    -- E8: the model of the class registry assigns the ids (first occurrence in registration order:
+    -- per mode the pattern ASTs, then the lookahead ASTs); it must reproduce the real registry (keys in
+    -- id order). The patterns with the assigned ids replace those the harness numbered (`cpat`).
+    let r := assignModes st.kpats.toList []
+    let same := r.2 == st.regreal
+    let cp : Array (List (Nat × CAst)) := (r.1.map fun ps => ps.map fun q => (q.tid, q.ast)).toArray
+    let cl : Array (List (Nat × CAst)) := (r.1.map fun ps => ps.filterMap fun q => q.la.map fun l => (q.tid, l.2)).toArray
+    let below := r.1.all fun ps => ps.all fun q => q.ast.idsBelow r.2.length &&
+      (match q.la with | some l => l.2.idsBelow r.2.length | none => true)
+    (if same then { st with cpats := cp, clapats := cl } else st,
+      some ((if same then "registry ok" else s!"registry differs model {r.2} real {st.regreal}") ++
+        (if below then "" else " ids-out-of-range")))
   | "cpat" :: m :: t :: r =>
     match m.toNat?, t.toNat?, parseCAst r with
     | some m, some t, some (a, []) =>
